@@ -21,7 +21,7 @@ func init() {
 		Assumptions: []string{"no insert happens between the probes", "nothing expires during the case (retention > data span)"},
 		Cases: func(tier string) int {
 			if tier == "quick" {
-				return 24
+				return 72
 			}
 			return 300
 		},
